@@ -256,7 +256,7 @@ func (h *echoHandler) Handle(req []byte) ([]byte, error) {
 	return transform(req, h.c.Xor), nil
 }
 
-const hangCeiling = 10 * time.Second // a case takes milliseconds; a hung case is repeated once before it counts
+const hangCeiling = 60 * time.Second // a case takes milliseconds; a hung case is repeated once before it counts
 
 func waitFor(done <-chan struct{}) bool {
 	select {
